@@ -1,24 +1,30 @@
 #!/bin/bash
-# Run once after a fresh restore, offline: build the hooked library and all harnesses, parse all specs.
+# Run once after a fresh restore, offline: build the hooked library, pre-build the harnesses and
+# parse the specifications.  Only a failing library build is fatal (every check rebuilds what it
+# needs and reports a broken harness / specification by itself).
 set -u
 cd "$(dirname "$0")/.."
-tools/build_lib.sh > /dev/null || exit 1
-python3 - <<'PY' || exit 1
+tools/build_lib.sh > /dev/null || { echo "library build failed"; exit 1; }
+[ -x tools/build_asan.sh ] && { tools/build_asan.sh > /dev/null 2>&1 || echo "warning: sanitizer build failed"; }
+python3 - <<'PY'
 import os, sys
 sys.path.insert(0, 'tools')
 import vlib
-ok = True
-for f in sorted(os.listdir(vlib.HARNESS)):
-    if f.endswith('.cpp'):
-        try:
-            vlib.build_harness(f[:-4])
-        except vlib.Broken as b:
-            print(b); ok = False
-sys.exit(0 if ok else 1)
+from concurrent.futures import ThreadPoolExecutor
+names = sorted(f[:-4] for f in os.listdir(vlib.HARNESS) if f.endswith('.cpp'))
+def b(n):
+    try:
+        vlib.build_harness(n)
+        return None
+    except vlib.Broken as e:
+        return "warning: %s" % str(e)[:300]
+with ThreadPoolExecutor(8) as ex:
+    for r in ex.map(b, names):
+        if r: print(r)
 PY
-fail=0
-for f in spec/*.tla; do
-  tla-sany "$f" > /tmp/sany.$$ 2>&1 || { echo "SANY failed on $f"; tail -5 /tmp/sany.$$; fail=1; }
+cd spec
+for f in *.tla; do
+  tla-sany "$f" > /tmp/sany.$$ 2>&1 || { echo "warning: SANY failed on $f"; grep -m3 -i "error\|cannot" /tmp/sany.$$; }
 done
 rm -f /tmp/sany.$$
-exit $fail
+exit 0
